@@ -187,7 +187,9 @@ class TypeSpec(object):
             return z3.BoolVal(True)
         if k == 'str':
             base = Val.is_S(t)
-        elif k == 'int':
+        elif k in ('int', 'float'):
+            # float: a non-integral number (time stamps), carried as an integer count of FLOAT_SCALE-ths; only comparisons and
+            # int() are modelled for it, every other operation is refused by the engine
             base = Val.is_I(t)
         elif k == 'bool':
             base = Val.is_B(t)
@@ -288,7 +290,7 @@ def parse_spec(s):
         else:
             elem = parse_spec(inner)
         s = head
-    if s in ('str', 'int', 'bool', 'any', 'dict', 'set', 'list', 'tuple', 'none', 'opaque'):
+    if s in ('str', 'int', 'bool', 'any', 'dict', 'set', 'list', 'tuple', 'none', 'opaque', 'float'):
         ts = TypeSpec(s, (), opt, elem)
         if s == 'tuple' and locals().get('tuple_fields'):
             ts.fields = tuple_fields      # namedtuple: items can be read by field name
@@ -364,7 +366,12 @@ def field_spec(classes, field):
     return first
 
 
+FLOAT_SCALE = 10 ** 9
+
+
 def join_specs(h1, h2):
+    if (h1 is not None and h1.kind == 'float') != (h2 is not None and h2.kind == 'float'):
+        raise EngineError('a float value merges with a value of another type: not modelled')
     if h1 is None or h2 is None:
         return None
     if h1.kind == 'none':
